@@ -43,6 +43,7 @@ import (
 	"testing"
 	"time"
 
+	intotocmd "github.com/in-toto/in-toto-golang/cmd"
 	intoto "github.com/in-toto/in-toto-golang/in_toto"
 	"verif/harness/lib"
 )
@@ -238,8 +239,29 @@ func FuzzLoadKey(f *testing.F) {
 		px, _ := x509.MarshalPKIXPublicKey(k.signer.Public())
 		forms = append(forms, fuzzEnc("PUBLIC KEY", px))
 		pubs = append(pubs, forms[len(forms)-1])
-		forms = append(forms, fuzzEnc("CERTIFICATE", fuzzCert(k, int64(i))))
+		certDER := fuzzCert(k, int64(i))
+		forms = append(forms, fuzzEnc("CERTIFICATE", certDER))
 		certs = append(certs, forms[len(forms)-1])
+		// SVID conversion (internal/spiffe SVIDDetails.InTotoKey through the hook), once per pool key: the oracle's
+		// default load of the PKCS#8 private key with the leaf certificate attached; it signs, the public form verifies
+		leaf, err := x509.ParseCertificate(certDER)
+		if err != nil {
+			panic(err)
+		}
+		sk, serr := intotocmd.VerifSVIDInTotoKey(k.signer, leaf, nil)
+		want, werr := fuzzOracle(forms[0], true, "", nil)
+		want.KeyVal.Certificate = fuzzPEM("CERTIFICATE", certDER) + "\n"
+		if g, w := fuzzShow(sk, serr), fuzzShow(want, werr); g != w {
+			f.Fatalf("SVID key of %s differs from the default load of its PKCS#8 private key plus certificate\nimpl=%s\nwant=%s", k.name, truncate(g, 3000), truncate(w, 3000))
+		}
+		wpub, _ := fuzzOracle(pubs[len(pubs)-1], true, "", nil)
+		mb := intoto.Metablock{Signed: testLink()}
+		if err := mb.Sign(sk); err != nil {
+			f.Fatalf("SVID key of %s cannot sign: %v", k.name, err)
+		}
+		if err := mb.VerifySignature(wpub); err != nil {
+			f.Fatalf("signature of the SVID key of %s does not verify under the public form: %v", k.name, err)
+		}
 		for j, t := range forms {
 			f.Add(t, sch, []string{"sha256,sha512", "sha512,sha256", "\x00nil", "", "sha256"}[(i+j)%5])
 			if strings.HasPrefix(k.name, "ecdsa") {
